@@ -149,6 +149,13 @@ def _cause(e):
         cs = []
         if e["returned"] != e["runs"]:
             cs.append("hang")
+        if e.get("pre", "ok") != "ok":
+            if e["panics"]:
+                cs.append("panic: " + re.sub(r"\d+", "N", e["pmsg"])[:60])
+            if e["leaks"]:
+                m = re.search(r"builder\.([\w\.\(\)\*]+)", e.get("stack", ""))
+                cs.append("goroutine left after an early return: " + (m.group(1) if m else "?"))
+            return cs or ["other"]
         if e["panics"]:
             cs.append("panic: " + re.sub(r"\d+", "N", e["pmsg"])[:60])
         if e["leaks"]:
@@ -174,6 +181,8 @@ def _cause(e):
             return [_perr_cause(e["perr"])]
         if e["leaks"]:
             return ["goroutine left"]
+        if e["before"] == e["after"] and e.get("bfmt") != e.get("afmt"):
+            return ["subtable format not preserved (%s%d)" % (e["shape"]["tab"], e["shape"]["typ"])]
         if e["before"] != e["after"]:
             return ["parsed lookup list differs (%s%d)" % (e["shape"]["tab"], e["shape"]["typ"])]
         return ["instance does not conform to its shape (harness)"]
@@ -350,7 +359,17 @@ def _par_tlc(ctx, jobs):
     def one(j):
         kw = dict(j)
         module = kw.pop("module")
-        return ctx.tlc(module, count=False, workers=w, **kw)
+        temporal = kw.pop("expect_temporal", False)
+        try:
+            return ctx.tlc(module, count=False, workers=w, **kw)
+        except vlib.Infra as ex:
+            # vlib does not recognise TLC's wording for a violated temporal property
+            if temporal and "Temporal property Termination was violated" in str(ex):
+                r = vlib.TLCResult()
+                r.violated = "Termination"
+                r.cmd = "tlc2.TLC -config %s %s.tla" % (kw.get("cfg"), module)
+                return r
+            raise
 
     with concurrent.futures.ThreadPoolExecutor(max_workers=3) as ex:
         results = list(ex.map(one, jobs))
@@ -386,13 +405,17 @@ def _model(ctx):
              label="DslConc, buffer one short per escaped backslash: must fail"),
         dict(module="DslConc", cfg="DslConcNoLine.cfg", timeout=600,
              label="DslConc as read (error items without line): must fail"),
+        dict(module="DslConc", cfg="DslConcComment.cfg", timeout=600, expect_temporal=True,
+             label="DslConc, comment loop that stops at newline only: must fail (never terminates at end of input)"),
+        dict(module="DslConc", cfg="DslConcSpawn.cfg", timeout=600,
+             label="DslConc, lexer started before the preconditions are checked: must fail"),
     ]
     if not ctx.quick():
         jobs.append(dict(module="DslConc", cfg="DslConcG.cfg", files={"DslConcG.cfg": _cfg("DslConc.cfg", MaxTok=4, MaxPeek=1)},
                          timeout=1800, label="DslConc design, MaxTok=4, fault-case enumeration"))
     rr = _par_tlc(ctx, jobs)
-    res, esc, sh, live, neg, neg3, neg2 = rr[:7]
-    gen = res if ctx.quick() else rr[7]
+    res, esc, sh, live, neg, neg3, neg2, neg4, neg5 = rr[:9]
+    gen = res if ctx.quick() else rr[9]
     for r, what in ((res, "design"), (esc, "escape configuration"), (gen, "enumeration run")):
         if not r.ok:
             raise vlib.Infra("DslConc.tla (%s) violates %s on the model -- the spec is wrong, not the code:\n%s"
@@ -409,11 +432,22 @@ def _model(ctx):
         raise vlib.Infra("negative configuration DslConcTight did not fail as expected (%s)" % neg3.violated)
     if neg2.violated != "ResultOK":
         raise vlib.Infra("negative configuration DslConcNoLine did not fail as expected (%s)" % neg2.violated)
+    if neg4.violated != "Termination":
+        raise vlib.Infra("negative configuration DslConcComment did not fail as expected (%s)" % neg4.violated)
+    if neg5.violated not in ("SinkGood", "deadlock"):
+        raise vlib.Infra("negative configuration DslConcSpawn did not fail as expected (%s)" % neg5.violated)
     if sh.violated:
         raise vlib.Infra("shape enumeration violated " + sh.violated)
     ctx.notes.append("negative configurations fail in TLC as required: unbuffered decoder channel -> %s (parser exited, "
-                     "decoder blocked in send); buffer = bytes - 2 - backslashes -> %s; error items without line -> ResultOK"
-                     % (neg.violated, neg3.violated))
+                     "decoder blocked in send); buffer = bytes - 2 - backslashes -> %s; error items without line -> ResultOK; comment loop "
+                     "that stops at newline only -> Termination (lexer spins at end of input, parser waits); lexer started "
+                     "before the preconditions -> %s (early return leaves the lexer blocked)"
+                     % (neg.violated, neg3.violated, neg5.violated))
+    ctx.notes.append("subtable alternatives: every pair of formats is a distinct kind of the canonical projection and must be "
+                     "preserved (GPOS1 1/2, GPOS2 1/2, context 1/2/3, chained context 1/2/3); GSUB1 format 1 must come back as "
+                     "format 1 and format 2 without constant delta as format 2; the notation cannot distinguish a GSUB1 format 2 "
+                     "subtable with constant delta from format 1, nil from all-zero value records, nil from empty slices; "
+                     "coverage/class-definition formats do not exist in the data model (chosen when encoding)")
     ctx.cov["exhaustive"] = True
     ctx.cov["bounds"] = {"MaxTok": mt, "MaxStr": 2, "MaxRunes": 3, "MaxPeek": 2, "escape_config": "MaxTok 2, runes p/e/b",
                          "parse_error": "after any item / at any rune", "lexical_error": "at the end of any token list",
@@ -459,7 +493,7 @@ def run(ctx):
     seen = collections.Counter()
     cat = []
     for s in shapes:
-        if s["font"] not in ("nc", "c", "np", "e") or s["lst"] != "single" or len(s["forms"]) > 3 or s["a"] > 4 or s["b"] > 7:
+        if s["font"] not in ("nc", "c", "np", "e") or s["forms"] == ["rund"] or s["lst"] != "single" or len(s["forms"]) > 3 or s["a"] > 4 or s["b"] > 7:
             continue
         k = (s["font"], s["tab"], s["typ"], tuple(s["forms"]))
         if seen[k] >= per:
@@ -530,15 +564,6 @@ def run(ctx):
             for r in ex.map(lambda j: _validate(ctx, j[0], j[1], j[2]), jobs):
                 rejected += r
     _triage(ctx, rejected)
-
-    # ---- diagnostic, not judged: a font without any cmap table
-    dd = ctx.subdir("diag")
-    json.dump({"id": 1, "kind": "parse", "font": "0", "text": "GSUB1: A -> B", "procs": [1], "reps": 1},
-              open(os.path.join(dd, "case.json"), "w"))
-    ctx.run([binp, "one", os.path.join(dd, "case.json"), os.path.join(dd, "t.ndjson")], timeout=120)
-    e = vlib.read_ndjson(os.path.join(dd, "t.ndjson"))[0]
-    ctx.notes.append("diagnostic (not judged, two readings of 'fonts without character mappings'): over a font with no "
-                     "cmap table at all Parse(%r) gives oks=%d errs=%d err=%r" % ("GSUB1: A -> B", e["oks"], e["errs"], e["err"]))
 
     ctx.cov["distinct_nontrivial"] = nf + ns + len(shapes) + len(means)
     ctx.cov["rule"] = ("distinct texts run through builder.Parse (realisations of TLC fault cases, single-token mutations, "
